@@ -2,7 +2,10 @@ package scen
 
 import (
 	"fmt"
+	"net"
+	"os"
 	"strings"
+	"syscall"
 	"time"
 
 	"simh/sim"
@@ -45,10 +48,22 @@ func runC16(c *Ctx) {
 	if !BootTun(c, tw, false) {
 		return
 	}
-	blackhole := c.T.Bool(1, 4)
+	// how the unreachable hosts are unreachable: nobody listens (refused), packets vanish
+	// (black hole), or the attempt fails on the gateway's own machine (no descriptor, no buffers,
+	// no local address, no route)
+	unreach := c.T.Weighted(2, 1, 1)
+	if unreach == 2 {
+		errno := []syscall.Errno{syscall.EMFILE, syscall.ENFILE, syscall.EADDRNOTAVAIL, syscall.ENOBUFS, syscall.EACCES, syscall.ENETUNREACH, syscall.EHOSTUNREACH}[c.T.Choose(7)]
+		c.S.DialLocalErr = &net.OpError{Op: "dial", Net: "tcp", Err: os.NewSyscallError(map[bool]string{true: "socket", false: "connect"}[errno == syscall.EMFILE || errno == syscall.ENFILE || errno == syscall.ENOBUFS], errno)}
+	}
 	c.S.DialHook = func(network, from, to string) sim.DialVerdict {
-		if blackhole && strings.HasPrefix(to, "u-") {
-			return sim.DialBlackhole
+		if strings.HasPrefix(strings.ToLower(to), "u-") {
+			switch unreach {
+			case 1:
+				return sim.DialBlackhole
+			case 2:
+				return sim.DialLocalFailure
+			}
 		}
 		return sim.DialDefault
 	}
@@ -62,6 +77,22 @@ func runC16(c *Ctx) {
 		descr = append(descr, fmt.Sprintf("%s/%s: %s {%s}", p.Name, p.Transport, planString(p, len(p.Pkts)), strings.Join(notes, "; ")))
 	}
 	tw.Tuns = StartTunnels(c, tw.Plans)
+	firstPartOver := false
+	if tw.MC.TokenAuth && c.T.Bool(1, 5) {
+		// the identity provider revokes a user's access token after that user's tunnel was
+		// created: what was accepted stays accepted, the later steps are judged on their own
+		t0 := tw.Tuns[0]
+		revoked := false
+		c.S.AddActor("F token revoked after tunnel create", func() bool {
+			return !revoked && !firstPartOver && len(t0.Client.Packets()) >= 2 && !c.S.Draining
+		}, func() {
+			revoked = true
+			if tk := c.W.IdP.Tokens[t0.Plan.AccessToken]; tk != nil {
+				tk.Revoked = true
+				c.S.Count("fault.idp.token_revoked_between_steps")
+			}
+		})
+	}
 	for _, t := range tw.Tuns {
 		for _, h := range t.Hosts {
 			// the host may hang up (after its banner, or with a reset) before the client closes
@@ -74,6 +105,10 @@ func runC16(c *Ctx) {
 		}
 	}
 	RunTunnels(c, tw.Tuns, 5000)
+	firstPartOver = true
+	for _, tk := range c.W.IdP.Tokens {
+		tk.Revoked = false // (the histories below are about other things)
+	}
 	npk := 0
 	for _, t := range tw.Tuns {
 		if t.Client.Failed != "" || t.Err != "" {
@@ -192,6 +227,32 @@ func runC17(c *Ctx) {
 			p.Segs = [][][2]int{{{0, tot}}, {{0, first}, {first, tot}}}[c.T.Choose(2)]
 			c.S.Count("probe.pipelined_handshake")
 		}
+	}
+	if !tw.NTLM && c.T.Bool(1, 8) {
+		// history: the same client machine was refused several times a moment ago (a client that
+		// retries with the wrong settings); each handshake is judged on its own
+		bad := uint16(0)
+		if tw.MC.ServerCaps == 0 {
+			bad = 1 + uint16(c.T.Choose(7))
+		} else if c.T.Bool(1, 2) {
+			bad = 4
+		}
+		nb := 5 + c.T.Choose(4)
+		ip := clientIP(tw.Plans[0].From)
+		for k := 0; k < nb; k++ {
+			bp := &TunPlan{Name: fmt.Sprintf("r%d", k), Transport: tw.Plans[0].Transport, From: fmt.Sprintf("%s:%d", ip, 42000+k), ConnID: fmt.Sprintf("{C17R-%d-%d}", c.Res.Seed&0xffff, k), CloseAfter: -1}
+			if strings.Contains(ip, ":") {
+				bp.From = fmt.Sprintf("[%s]:%d", ip, 42000+k)
+			}
+			bp.Pkts = []CPkt{PHandshake(bad, 1, 0)}
+			bt := StartTunnels(c, []*TunPlan{bp})
+			c.S.Run(func() bool {
+				return bt[0].Client.Failed != "" || bt[0].Err != "" || len(bt[0].Client.Packets()) >= 1 || bt[0].Client.Ended()
+			}, 3000, 10*time.Second)
+			bt[0].Client.CloseAll(false)
+		}
+		c.S.Run(nil, 100, time.Second)
+		c.S.Count("probe.refused_handshakes_from_the_same_machine_before")
 	}
 	tw.Tuns = StartTunnels(c, tw.Plans)
 	RunTunnels(c, tw.Tuns, 3000)
